@@ -360,9 +360,44 @@ def rule_l7(chk: Check) -> None:
                 return None
 
             interp.call_oracle = oracle
-            v = interp.eval(k.value, {})
-            reads = [x.args[0].value for x in walk(k.value) if isinstance(x, ast.Call) and method_call(x) and method_call(x)[1] == "get" and x.args and isinstance(x.args[0], ast.Constant)]
-            reads += [x.slice.value for x in walk(k.value) if isinstance(x, ast.Subscript) and isinstance(x.slice, ast.Constant)]
+
+            class _Present(ast.NodeTransformer):
+                """The sample: every key is present in the table.  `d[key]` reads
+                like `d.get(key)`, `key in d` is true, `key not in d` is false."""
+
+                def visit_Subscript(self, n):  # noqa: N802
+                    self.generic_visit(n)
+                    if isinstance(n.slice, ast.Constant) and isinstance(n.slice.value, str) and isinstance(n.value, ast.Name):
+                        return ast.copy_location(ast.Call(func=ast.Attribute(value=n.value, attr="get", ctx=ast.Load()), args=[n.slice], keywords=[]), n)
+                    return n
+
+                def visit_Compare(self, n):  # noqa: N802
+                    self.generic_visit(n)
+                    if len(n.ops) == 1 and isinstance(n.ops[0], (ast.In, ast.NotIn)) and isinstance(n.left, ast.Constant) and isinstance(n.comparators[0], ast.Name):
+                        return ast.copy_location(ast.Constant(value=isinstance(n.ops[0], ast.In)), n)
+                    return n
+
+            import copy
+
+            def subst(e, depth=0):
+                """Replace single-assignment locals by their defining expression."""
+                if depth > 3:
+                    return e
+
+                class _S(ast.NodeTransformer):
+                    def visit_Name(self, n):  # noqa: N802
+                        ds = [st.value for st in walk(ft.node) if isinstance(st, ast.Assign) and len(st.targets) == 1 and isinstance(st.targets[0], ast.Name) and st.targets[0].id == n.id]
+                        if len(ds) == 1 and not any(isinstance(x, ast.Name) and x.id == n.id for x in walk(ds[0])):
+                            return subst(copy.deepcopy(ds[0]), depth + 1)
+                        return n
+
+                return _S().visit(e)
+
+            expr = subst(copy.deepcopy(k.value))
+            reads_expr = expr
+            v = interp.eval(ast.fix_missing_locations(_Present().visit(copy.deepcopy(expr))), {})
+            reads = [x.args[0].value for x in walk(reads_expr) if isinstance(x, ast.Call) and method_call(x) and method_call(x)[1] == "get" and x.args and isinstance(x.args[0], ast.Constant)]
+            reads += [x.slice.value for x in walk(reads_expr) if isinstance(x, ast.Subscript) and isinstance(x.slice, ast.Constant)]
             ok = isinstance(v, IntV) and v.lo == 0 and v.hi == 0 and key in reads
             if not ok:
                 chk.finding(
